@@ -378,6 +378,8 @@ func buildIntrinsics() map[string]intrinsic {
 		}
 		return ex.st.F
 	}
+	m["github.com/q191201771/naza/pkg/nazaerrors.Wrap"] = func(ex *Exec, fn *ssa.Function, a []Value) Value { return a[0] }
+	m["encoding/hex.Dump"] = func(ex *Exec, fn *ssa.Function, a []Value) Value { return ex.mkStr("<hexdump>") }
 	m["os.Exit"] = func(ex *Exec, fn *ssa.Function, a []Value) Value {
 		ex.require(ex.st.F, "os.Exit called")
 		return nil
